@@ -372,13 +372,13 @@ instance (col : List Nat) : Decidable (ColOk col) := by unfold ColOk; infer_inst
 /-- the broadcast extent at one axis position: the first extent that is not 1, else 1 -/
 def colDim (col : List Nat) : Nat := (col.find? (· ≠ 1)).getD 1
 
-def maxRank (shapes : List (List Nat)) : Nat := shapes.foldr (fun s m => max s.length m) 0
+def bcRank (shapes : List (List Nat)) : Nat := shapes.foldr (fun s m => max s.length m) 0
 
 /-- the column of extents at axis `k` (from the right) -/
 def colAt (shapes : List (List Nat)) (k : Nat) : List Nat := shapes.map (ext · k)
 
 def nDims (shapes : List (List Nat)) : List Nat :=
-  ((List.range (maxRank shapes)).map fun k => colDim (colAt shapes k)).reverse
+  ((List.range (bcRank shapes)).map fun k => colDim (colAt shapes k)).reverse
 
 theorem colDim_cons (a : Nat) (col : List Nat) : colDim (a :: col) = if a = 1 then colDim col else a := by
   unfold colDim
@@ -481,37 +481,37 @@ theorem colDim_step (a s : Nat) (rest : List Nat) (h : ColOk (a :: s :: rest)) :
   by_cases hs : s = 1 <;> by_cases ha : a = 1 <;> simp [hs, ha]
   omega
 
-theorem maxRank_cons (s : List Nat) (shapes : List (List Nat)) :
-    maxRank (s :: shapes) = max s.length (maxRank shapes) := rfl
+theorem bcRank_cons (s : List Nat) (shapes : List (List Nat)) :
+    bcRank (s :: shapes) = max s.length (bcRank shapes) := rfl
 
 theorem colAt_cons (s : List Nat) (shapes : List (List Nat)) (k : Nat) :
     colAt (s :: shapes) k = ext s k :: colAt shapes k := rfl
 
 theorem ext_nDims (shapes : List (List Nat)) (k : Nat) :
-    ext (nDims shapes) k = if k < maxRank shapes then colDim (colAt shapes k) else 1 := by
+    ext (nDims shapes) k = if k < bcRank shapes then colDim (colAt shapes k) else 1 := by
   unfold nDims
   rw [ext_reverse_map_range]
 
-theorem nDims_length (shapes : List (List Nat)) : (nDims shapes).length = maxRank shapes := by
+theorem nDims_length (shapes : List (List Nat)) : (nDims shapes).length = bcRank shapes := by
   simp [nDims]
 
-theorem le_maxRank {shapes : List (List Nat)} {s : List Nat} (h : s ∈ shapes) : s.length ≤ maxRank shapes := by
+theorem le_bcRank {shapes : List (List Nat)} {s : List Nat} (h : s ∈ shapes) : s.length ≤ bcRank shapes := by
   induction shapes with
   | nil => cases h
   | cons t shapes ih =>
-    rw [maxRank_cons]
+    rw [bcRank_cons]
     rcases List.mem_cons.mp h with h | h
     · subst h; omega
     · have := ih h; omega
 
-theorem colAt_ge {shapes : List (List Nat)} {k : Nat} (h : maxRank shapes ≤ k) : ∀ a ∈ colAt shapes k, a = 1 := by
+theorem colAt_ge {shapes : List (List Nat)} {k : Nat} (h : bcRank shapes ≤ k) : ∀ a ∈ colAt shapes k, a = 1 := by
   intro a ha
   obtain ⟨s, hs, rfl⟩ := List.mem_map.mp ha
-  exact ext_ge (by have := le_maxRank hs; omega)
+  exact ext_ge (by have := le_bcRank hs; omega)
 
 theorem ext_nDims' (shapes : List (List Nat)) (k : Nat) : ext (nDims shapes) k = colDim (colAt shapes k) := by
   rw [ext_nDims]
-  by_cases h : k < maxRank shapes
+  by_cases h : k < bcRank shapes
   · rw [if_pos h]
   · rw [if_neg h]
     rcases colDim_spec (colAt shapes k) with hs | hs
@@ -520,7 +520,7 @@ theorem ext_nDims' (shapes : List (List Nat)) (k : Nat) : ext (nDims shapes) k =
 
 theorem nDims_single (s : List Nat) : nDims [s] = s := by
   apply ext_inj
-  · simp [nDims_length, maxRank]
+  · simp [nDims_length, bcRank]
   · intro k _
     rw [ext_nDims']
     simp only [colAt, List.map_cons, List.map_nil, colDim_cons, colDim_nil]
@@ -562,7 +562,7 @@ theorem bfold_spec (shapes : List (List Nat)) : ∀ (acc : List Nat),
         rw [(ih (bdims s acc)).1 h']
         congr 1
         apply ext_inj
-        · rw [nDims_length, nDims_length, maxRank_cons, maxRank_cons, maxRank_cons, bdims_length]; omega
+        · rw [nDims_length, nDims_length, bcRank_cons, bcRank_cons, bcRank_cons, bdims_length]; omega
         · intro k _
           rw [ext_nDims', ext_nDims', colAt_cons, colAt_cons, colAt_cons, ext_bdims]
           exact colDim_step _ _ _ (h k)
@@ -591,7 +591,7 @@ theorem colOk_one_cons (col : List Nat) : ColOk (1 :: col) ↔ ColOk col := by
 
 theorem nDims_nil_cons (shapes : List (List Nat)) : nDims ([] :: shapes) = nDims shapes := by
   apply ext_inj
-  · rw [nDims_length, nDims_length, maxRank_cons]; simp
+  · rw [nDims_length, nDims_length, bcRank_cons]; simp
   · intro k _
     rw [ext_nDims', ext_nDims', colAt_cons, ext_nil, colDim_cons, if_pos rfl]
 
@@ -624,11 +624,11 @@ theorem bshapeN_ok_iff {shapes : List (List Nat)} {r : List Nat} :
     · intro hh; cases hh
     · intro hh; exact absurd hh.1 h
 
-theorem maxRank_perm {l l' : List (List Nat)} (hp : l.Perm l') : maxRank l = maxRank l' := by
+theorem bcRank_perm {l l' : List (List Nat)} (hp : l.Perm l') : bcRank l = bcRank l' := by
   induction hp with
   | nil => rfl
-  | cons x _ ih => rw [maxRank_cons, maxRank_cons, ih]
-  | swap x y l => rw [maxRank_cons, maxRank_cons, maxRank_cons, maxRank_cons]; omega
+  | cons x _ ih => rw [bcRank_cons, bcRank_cons, ih]
+  | swap x y l => rw [bcRank_cons, bcRank_cons, bcRank_cons, bcRank_cons]; omega
   | trans _ _ ih1 ih2 => rw [ih1, ih2]
 
 /-- **order independence.** The n-ary broadcast shape (and whether there is one) does not depend on
@@ -640,42 +640,94 @@ theorem bshapeN_perm {l l' : List (List Nat)} (hp : l.Perm l') : bshapeN l = bsh
     rw [bshapeN_of_ok h, bshapeN_of_ok h']
     congr 1
     apply ext_inj
-    · rw [nDims_length, nDims_length, maxRank_perm hp]
+    · rw [nDims_length, nDims_length, bcRank_perm hp]
     · intro k _
       rw [ext_nDims', ext_nDims']
       exact colDim_perm (hcol k) (h k)
   · have h' : ¬ ∀ k, ColOk (colAt l' k) := fun hh => h fun k => (hh k).perm (hcol k).symm
     rw [bshapeN_of_not_ok h, bshapeN_of_not_ok h']
 
+theorem bshape2_nil_right (s : List Nat) : bshape2 s [] false = .ok s := by
+  have hz : ZipOk s [] false := fun k _ h2 => absurd h2 (by simp)
+  rw [bshape2_of_ok hz]
+  congr 1
+  apply ext_inj
+  · simp [bdims_length]
+  · intro k _
+    rw [ext_bdims, ext_nil]
+    split
+    · next h => exact h.symm
+    · rfl
+
+theorem bshapeN_pair (s1 s2 : List Nat) : bshapeN [s1, s2] = bshape2 s2 s1 false := by
+  unfold bshapeN
+  rw [List.foldlM_cons, bshape2_nil_right]
+  show ([s2].foldlM (fun acc s => bshape2 s acc false) s1) = _
+  rw [List.foldlM_cons]
+  cases bshape2 s2 s1 false <;> rfl
+
+theorem bshapeN_triple (s1 s2 s3 : List Nat) :
+    bshapeN [s1, s2, s3] = (bshape2 s2 s1 false >>= fun a => bshape2 s3 a false) := by
+  unfold bshapeN
+  rw [List.foldlM_cons, bshape2_nil_right]
+  show ([s2, s3].foldlM (fun acc s => bshape2 s acc false) s1) = _
+  rw [List.foldlM_cons]
+  cases h : bshape2 s2 s1 false with
+  | error e => rfl
+  | ok a =>
+    show ([s3].foldlM (fun acc s => bshape2 s acc false) a) = bshape2 s3 a false
+    rw [List.foldlM_cons]
+    cases bshape2 s3 a false <;> rfl
+
+/-- the pairwise rule is commutative (result and error alike) -/
+theorem bshape2_comm' (s1 s2 : List Nat) : bshape2 s1 s2 false = bshape2 s2 s1 false := by
+  rw [← bshapeN_pair s2 s1, ← bshapeN_pair s1 s2]
+  exact bshapeN_perm (List.Perm.swap _ _ _)
+
+/-- the pairwise rule is associative in the error monad -/
+theorem bshape2_assoc' (a b c : List Nat) :
+    (bshape2 a b false >>= fun ab => bshape2 ab c false) =
+      (bshape2 b c false >>= fun bc => bshape2 a bc false) := by
+  have h1 : bshapeN [b, a, c] = (bshape2 a b false >>= fun ab => bshape2 ab c false) := by
+    rw [bshapeN_triple]
+    congr 1
+    funext ab
+    exact bshape2_comm' c ab
+  have h2 : bshapeN [c, b, a] = (bshape2 b c false >>= fun bc => bshape2 a bc false) := bshapeN_triple c b a
+  rw [← h1, ← h2]
+  apply bshapeN_perm
+  -- [b, a, c] ~ [c, b, a]
+  exact (List.Perm.cons b (List.Perm.swap c a [])).trans (List.Perm.swap c b [a])
+
 /-- NumPy's `broadcast_shapes` for any number of shapes, stated directly: pad every shape on the
 left with 1s to the largest rank; at every axis the extents must be pairwise equal-or-1; the result
 extent is the one that is not 1 (1 if all are). -/
 def specBshapeN (shapes : List (List Nat)) : Option (List Nat) :=
-  let n := maxRank shapes
+  let n := bcRank shapes
   let cols := (List.range n).map fun i => shapes.map fun s => (padL n s).getD i 1
   if cols.all (fun c => decide (ColOk c)) then some (cols.map colDim) else none
 
-theorem padCol_eq (shapes : List (List Nat)) (i : Nat) (hi : i < maxRank shapes) :
-    (shapes.map fun s => (padL (maxRank shapes) s).getD i 1) = colAt shapes (maxRank shapes - 1 - i) := by
+theorem padCol_eq (shapes : List (List Nat)) (i : Nat) (hi : i < bcRank shapes) :
+    (shapes.map fun s => (padL (bcRank shapes) s).getD i 1) = colAt shapes (bcRank shapes - 1 - i) := by
   unfold colAt
   apply List.map_congr_left
   intro s hs
-  have hl := le_maxRank hs
-  have hi' : i < (padL (maxRank shapes) s).length := by rw [padL_length hl]; exact hi
+  have hl := le_bcRank hs
+  have hi' : i < (padL (bcRank shapes) s).length := by rw [padL_length hl]; exact hi
   rw [List.getD_eq_getElem?_getD, List.getElem?_eq_getElem hi', Option.getD_some, padL_getElem hl]
 
 theorem bshapeN_eq_spec (shapes : List (List Nat)) :
     bshapeN shapes = (match specBshapeN shapes with | some r => .ok r | none => .error .value) := by
-  have hall : (((List.range (maxRank shapes)).map fun i => shapes.map fun s => (padL (maxRank shapes) s).getD i 1).all
+  have hall : (((List.range (bcRank shapes)).map fun i => shapes.map fun s => (padL (bcRank shapes) s).getD i 1).all
       fun c => decide (ColOk c)) = true ↔ ∀ k, ColOk (colAt shapes k) := by
     rw [List.all_eq_true]
     constructor
     · intro h k
-      by_cases hk : k < maxRank shapes
-      · have := h (shapes.map fun s => (padL (maxRank shapes) s).getD (maxRank shapes - 1 - k) 1)
-          (List.mem_map.mpr ⟨maxRank shapes - 1 - k, by simp; omega, rfl⟩)
+      by_cases hk : k < bcRank shapes
+      · have := h (shapes.map fun s => (padL (bcRank shapes) s).getD (bcRank shapes - 1 - k) 1)
+          (List.mem_map.mpr ⟨bcRank shapes - 1 - k, by simp; omega, rfl⟩)
         rw [padCol_eq _ _ (by omega)] at this
-        have hkk : maxRank shapes - 1 - (maxRank shapes - 1 - k) = k := by omega
+        have hkk : bcRank shapes - 1 - (bcRank shapes - 1 - k) = k := by omega
         rw [hkk] at this
         simpa using this
       · intro a ha b _
@@ -693,10 +745,10 @@ theorem bshapeN_eq_spec (shapes : List (List Nat)) :
     apply List.ext_getElem
     · simp [nDims_length]
     · intro i h1 h2
-      have hi : i < maxRank shapes := by rw [nDims_length] at h1; exact h1
+      have hi : i < bcRank shapes := by rw [nDims_length] at h1; exact h1
       simp only [List.getElem_map, List.getElem_range]
       rw [padCol_eq _ _ hi]
-      have : (nDims shapes)[i] = ext (nDims shapes) (maxRank shapes - 1 - i) := by
+      have : (nDims shapes)[i] = ext (nDims shapes) (bcRank shapes - 1 - i) := by
         rw [ext_lt (by rw [nDims_length]; omega)]
         congr 1
         rw [nDims_length]; omega
@@ -1202,18 +1254,18 @@ theorem projIdx_comp {a b c : List Nat} {j : Idx} (hab : BcTo a b) (hbc : BcTo b
   have := hab.1; have := hbc.1
   omega
 
-theorem mem_allIdx : ∀ {s : List Nat} {j : Idx}, j ∈ allIdx s ↔ InB j s
+theorem bc_mem_allIdx : ∀ {s : List Nat} {j : Idx}, j ∈ allIdx s ↔ InB j s
   | [], j => by
     cases j <;> simp [allIdx]
   | d :: s, j => by
     simp only [allIdx, List.mem_flatMap, List.mem_range, List.mem_map]
     constructor
     · rintro ⟨i, hi, r, hr, rfl⟩
-      exact ⟨hi, mem_allIdx.mp hr⟩
+      exact ⟨hi, bc_mem_allIdx.mp hr⟩
     · intro h
       cases j with
       | nil => exact absurd h (by simp)
-      | cons x j => exact ⟨x, h.1, j, mem_allIdx.mpr h.2, rfl⟩
+      | cons x j => exact ⟨x, h.1, j, bc_mem_allIdx.mpr h.2, rfl⟩
 
 /-! ## `COO.expand` and `broadcast_to` -/
 namespace COO
